@@ -228,13 +228,46 @@ def behavioural_pair(st, n1, n2):
         st.violation(key, "sibling property names %r and %r collapse (attributes %r / %r; model keeps sources %s)" % (n1, n2, i1, i2, sources), {**case, "images": [i1, i2]})
 
 
-def behavioural_title(st, title):
-    schema = {"type": "object", "title": title, "properties": {"child": {"type": "object", "title": "Child", "properties": {"x": {"type": "array", "items": {"type": ["integer", "string"]}}}}}}
+def behavioural_pair_required(st, n1, n2):
+    """Sibling names that are only listed under "required" (typed objects get implicit properties for them), and the mixed
+    case of one declared + one required-only name: both must survive with their JSON names recorded."""
+    for label, schema in (
+        ("required-only", {"type": "object", "title": "T", "required": [n1, n2]}),
+        ("declared+required-only", {"type": "object", "title": "T", "properties": {n1: {"const": 1}}, "required": [n2]}),
+        ("required-only+declared", {"type": "object", "title": "T", "properties": {n2: {"const": 2}}, "required": [n1, n2]}),
+    ):
+        st.add("evaluations")
+        st.add("traces")
+        case = {"names": [n1, n2], "shape": label}
+        kind, model = impl.do_parse(schema)
+        if kind != impl.ELEMENT:
+            st.violation("pair:parse-%s" % kind, "sibling names %r, %r (%s): %r" % (n1, n2, label, model), case)
+            continue
+        sources = sorted(str(p.source) for p in model.properties.values())
+        ok = sources == sorted([n1, n2])
+        if ok:
+            a, _ = impl.do_call(model, {n1: 1, n2: 2})
+            b, _ = impl.do_call(model, {n1: 1})
+            ok = a == impl.ACCEPT and b != impl.ACCEPT
+        if not ok:
+            st.violation("sibling-collapse:%s" % label, "sibling names %r and %r (%s): model keeps sources %s" % (n1, n2, label, sources), case)
+
+
+def behavioural_title(st, title, autotitle=None):
+    schema = {"type": "object", "title": title, **({"_x_autotitle": autotitle} if autotitle is not None else {}), "properties": {"child": {"type": "object", "title": "Child", "properties": {"x": {"type": "array", "items": {"type": ["integer", "string"]}}}}}}
     case = {"title": title}
     st.add("evaluations")
     st.add("traces")
     try:
-        elements = parse(docs.load(schema))
+        if autotitle is not None:
+            # the labeller would overwrite a hand-set automatic title: parse directly
+            from statham.schema.parser import parse_element as _pe
+            import copy as _copy
+
+            schema["properties"]["child"]["_x_autotitle"] = "child"
+            elements = [_pe(_copy.deepcopy(schema))]
+        else:
+            elements = parse(docs.load(schema))
     except Exception as exc:
         if type(exc).__name__ in ("SchemaParseError", "FeatureNotImplementedError"):
             st.outcome("title-refused")
@@ -313,6 +346,8 @@ def work(item):
             st.add("states")
             st.add("transitions")
             behavioural_pair(st, a, b)
+            if _parse_attribute_name(a) == _parse_attribute_name(b) or n % 7 == 0:
+                behavioural_pair_required(st, a, b)
         st.sample({"pairs_over": len(set(names))})
     elif item[0] == "titles":
         titles = [chr(c) for c in range(0x20, 0x100)] + ["A" + chr(c) + "b" for c in range(0x20, 0x100)] + [chr(c) + "Abc" for c in range(0x20, 0x100)]
@@ -324,6 +359,14 @@ def work(item):
             st.add("states")
             st.add("transitions")
             behavioural_title(st, t)
+        # the automatic title is a fallback for titles without ASCII alphanumerics: it needs the same care
+        fallback = [(t, a) for t in ("é", "&", "日本", " ") for a in sorted(MODULE_NAMES) + [x.lower() for x in sorted(MODULE_NAMES)] + ["1st", "123", "a", "x y", "class", "def"]]
+        for n, (t, a) in enumerate(fallback):
+            if n % item[2] != item[1]:
+                continue
+            st.add("states")
+            st.add("transitions")
+            behavioural_title(st, t, a)
         docs.clear()
         st.sample({"titles": titles[:5], "count": len(titles)})
     return st
@@ -347,6 +390,7 @@ def replay(case):
     st = runner.Stats()
     if "names" in case:
         behavioural_pair(st, case["names"][0], case["names"][1])
+        behavioural_pair_required(st, case["names"][0], case["names"][1])
     elif "title" in case and "codepoint" not in case:
         behavioural_title(st, case["title"])
     elif "codepoint" in case:
